@@ -290,6 +290,15 @@ def lp_ceilings(repo, tier, seed):
 
 CONTRACTS = [UsedBelowDemand("feed"), UsedBelowDemand("biofuel"), UsedAboveDemandIsRejected("feed"), UsedAboveDemandIsRejected("biofuel"),
              FinalRoundChargesWithinDemand(), FinalRoundCompensation()] + _c08_schedules()
+def _c18_min_needs():
+    from contracts import C18
+    from contracts.common import relabelled
+    return relabelled([c for c in C18.CONTRACTS if type(c).__name__ == "MinNeeds"], "C03")
+
+
+# mechanism of sentence 1 (not the sentence): before anything may go to feed / biofuel in the feed round, humans are
+# reserved min(no-feed result, minimum share) of their need, filled in the documented priority order - C18's contract
+CONTRACTS += _c18_min_needs()
 EXTRA = [checks_after_every_round, lp_ceilings]
 TRUSTED = [
     "machine floats treated as mathematical reals; the run-time checks' own tolerances (1e-4 relative, 1e-6 absolute) are part of what is proved",
